@@ -46,7 +46,7 @@ func endClass(err error) int {
 // writeAll sends the packets through the real writer (PacketConn.WriteTo or
 // Session.SendMsg), from `writers` goroutines, and returns the write calls
 // seen by the stream in order.
-func writeAll(session bool, pkts [][]byte, writers int, maxp uint32) (writes [][]byte, errs []error) {
+func writeAll(session bool, pkts [][]byte, writers int, maxp uint32) (writes [][]byte, errs []error, split []int) {
 	sink := &pipeEnd{chunkReader: newChunkReader(nil, nil)}
 	var send func(p []byte) error
 	raddr := addr("remote")
@@ -65,8 +65,21 @@ func writeAll(session bool, pkts [][]byte, writers int, maxp uint32) (writes [][
 	}
 	if writers <= 1 {
 		for _, p := range pkts {
+			sink.wmu.Lock()
+			before := len(sink.writes)
+			sink.wmu.Unlock()
 			if err := send(p); err != nil {
 				errs = append(errs, err)
+			}
+			sink.wmu.Lock()
+			k := len(sink.writes) - before
+			sink.wmu.Unlock()
+			want := 1
+			if len(p) == 0 && !session {
+				want = 0
+			}
+			if k != want {
+				split = append(split, k)
 			}
 		}
 	} else {
@@ -90,12 +103,99 @@ func writeAll(session bool, pkts [][]byte, writers int, maxp uint32) (writes [][
 	sink.wmu.Lock()
 	writes = sink.writes
 	sink.wmu.Unlock()
-	return writes, errs
+	return writes, errs, split
+}
+
+// halfDuplex gives a PacketConn/Session one direction of a livePipe.
+type halfDuplex struct {
+	r io.Reader
+	w io.Writer
+}
+
+func (h halfDuplex) Read(b []byte) (int, error) {
+	if h.r == nil {
+		return 0, io.EOF
+	}
+	return h.r.Read(b)
+}
+func (h halfDuplex) Write(b []byte) (int, error) {
+	if h.w == nil {
+		return len(b), nil
+	}
+	return h.w.Write(b)
+}
+func (h halfDuplex) Close() error { return nil }
+
+// liveRun: `writers` goroutines send through the real writer into a pipe that
+// delivers every Write call separately, while the real receiver is reading.
+func liveRun(session bool, pkts [][]byte, writers int, maxp uint32) (pipe *livePipe, got [][]byte, end int, errs []error) {
+	pipe = newLivePipe()
+	var send func(p []byte) error
+	raddr := addr("remote")
+	done := make(chan struct{})
+	if session {
+		ws := stream_packet.NewSession(halfDuplex{w: pipe}, maxp)
+		rs := stream_packet.NewSession(halfDuplex{r: pipe}, maxp)
+		send = func(p []byte) error { return ws.SendMsg(&rawMsg{b: p}) }
+		go func() {
+			defer close(done)
+			for {
+				m := &rawMsg{b: []byte("stale")}
+				if err := rs.RecvMsg(m); err != nil {
+					end = endClass(err)
+					return
+				}
+				got = append(got, m.b)
+			}
+		}()
+	} else {
+		wc := rwc.NewPacketConn(context.Background(), halfDuplex{w: pipe}, addr("local"), raddr, maxp, 2)
+		rc := rwc.NewPacketConn(context.Background(), halfDuplex{r: pipe}, addr("local"), raddr, maxp, 1)
+		send = func(p []byte) error {
+			n, err := wc.WriteTo(p, raddr)
+			if err == nil && n != len(p) {
+				err = errors.New("WriteTo returned a wrong count")
+			}
+			return err
+		}
+		go func() {
+			defer close(done)
+			for {
+				buf := make([]byte, int(maxp)+8)
+				n, _, err := rc.ReadFrom(buf)
+				if err != nil {
+					end = endClass(err)
+					return
+				}
+				got = append(got, buf[:n])
+			}
+		}()
+	}
+	var wg sync.WaitGroup
+	var emu sync.Mutex
+	for w := 0; w < writers; w++ {
+		wg.Add(1)
+		go func(w int) {
+			defer wg.Done()
+			for i := w; i < len(pkts); i += writers {
+				if err := send(pkts[i]); err != nil {
+					emu.Lock()
+					errs = append(errs, err)
+					emu.Unlock()
+				}
+			}
+		}(w)
+	}
+	wg.Wait()
+	pipe.Close()
+	<-done
+	return pipe, got, end, errs
 }
 
 // readAll runs the real receiver over the chunked stream until it ends.
-func readAll(session bool, data []byte, chunks []int, maxp uint32, bufN int, bufLen int) (pkts [][]byte, end int, shorts []bool, closed int) {
+func readAll(session bool, data []byte, chunks []int, de bool, maxp uint32, bufN int, bufLen int) (pkts [][]byte, end int, shorts []bool, closed int) {
 	src := &pipeEnd{chunkReader: newChunkReader(data, chunks)}
+	src.eofData = de
 	if session {
 		s := stream_packet.NewSession(src, maxp)
 		for {
@@ -154,7 +254,7 @@ func genPackets(c *hx.Ctx, n int, lo int, maxp int) [][]byte {
 func c08(c *hx.Ctx) {
 	c.Type = "c08_case"
 	c.Agree = "c08_agree"
-	c.Rule = "rwc.PacketConn and stream_packet.Session: packet sequences (0..10 packets, sizes 1..max incl. max, max in 4..300, empty messages for Session) written by the real writer (1..3 concurrent writers), the recorded byte stream re-chunked (1-byte, all-at-once, random) into the real receiver; malformed: zero / over-limit / 2^32-1 prefixes, truncated frames, trailing garbage; ReadFrom with short buffers; non-trivial = distinct stream with at least one packet delivered or a rejected prefix"
+	c.Rule = "rwc.PacketConn and stream_packet.Session: packet sequences (0..10 packets, sizes 1..max incl. max, max in 4..300, empty messages for Session) written by the real writer; single writer: one Write call per WriteTo/SendMsg is checked, the recorded byte stream is re-chunked (1-byte, all-at-once, random; a quarter with the last bytes delivered together with io.EOF) into the real receiver; 2..3 concurrent writers: through a pipe that delivers every Write call separately while the real receiver runs; malformed: zero / over-limit / 2^32-1 prefixes, truncated frames, trailing garbage; ReadFrom with short buffers; non-trivial = distinct stream with at least one packet delivered or a rejected prefix"
 	for i := 0; i < c.N; i++ {
 		session := c.Rng.Intn(5) < 2
 		lo := 1
@@ -174,8 +274,12 @@ func c08(c *hx.Ctx) {
 		if c.Rng.Intn(3) == 0 {
 			writers = 2 + c.Rng.Intn(2)
 		}
-		writes, werrs := writeAll(session, pkts, writers, uint32(maxp))
 		name := map[bool]string{false: "pktconn", true: "session"}[session]
+		if writers > 1 {
+			liveCase(c, name, session, pkts, writers, maxp)
+			continue
+		}
+		writes, werrs, split := writeAll(session, pkts, writers, uint32(maxp))
 		// writer oracle: one write per packet, each exactly prefix ++ payload, per-writer order kept
 		var order [][]byte
 		var stream []byte
@@ -188,6 +292,9 @@ func c08(c *hx.Ctx) {
 			if len(p) > 0 || session {
 				expectWrites++
 			}
+		}
+		if len(split) > 0 {
+			c.Failf("frame-split-across-writes", wdesc, "a WriteTo/SendMsg call produced %v Write calls on the stream instead of exactly one (atomicity assumption of the concurrent-writer theorem)", split)
 		}
 		if len(writes) != expectWrites {
 			c.Failf("write-count", wdesc, "%d packets produced %d stream writes", expectWrites, len(writes))
@@ -214,7 +321,7 @@ func c08(c *hx.Ctx) {
 		mustErr := false
 		data := stream
 		switch c.Rng.Intn(10) {
-		case 0, 1: // bad prefix after k packets
+		case 0, 1, 3: // bad prefix after k packets
 			k := 0
 			if len(writes) > 0 {
 				k = c.Rng.Intn(len(writes) + 1)
@@ -268,12 +375,13 @@ func c08(c *hx.Ctx) {
 			}
 		}
 		chunks, cname := chunksFor(c, len(data))
-		got, end, _, closed := readAll(session, data, chunks, uint32(maxp), 1+c.Rng.Intn(3), maxp+8)
-		desc := map[string]any{"kind": name + "/" + kind, "max": maxp, "chunking": cname, "chunks": chunks, "data": hx.Hex(data), "writers": writers, "expected": hexes(expect), "got": hexes(got), "end": end}
+		de := c.Rng.Intn(4) == 0
+		got, end, _, closed := readAll(session, data, chunks, de, uint32(maxp), 1+c.Rng.Intn(3), maxp+8)
+		desc := map[string]any{"kind": name + "/" + kind, "eof_with_last_read": de, "max": maxp, "chunking": cname, "chunks": chunks, "data": hx.Hex(data), "writers": writers, "expected": hexes(expect), "got": hexes(got), "end": end}
 		c.Case(hx.App("Pk", hx.Bool(session), hx.Z(int64(maxp)), natList(chunks), hx.Bytes(data), hx.BytesList(got), hx.Nat(end)), desc)
 		c.Class(name + "/" + kind + "/" + cname)
-		if writers > 1 {
-			c.Class(name + "/concurrent-writers")
+		if de {
+			c.Class(name + "/eof-with-last-read")
 		}
 		if len(got) > 0 || mustErr {
 			c.Nontrivial(name + hx.Hex(data))
@@ -299,7 +407,7 @@ func c08(c *hx.Ctx) {
 		// short reader buffer (PacketConn only)
 		if !session && kind == "valid" && len(order) > 0 && i%2 == 0 {
 			bl := c.Rng.Intn(maxp + 2)
-			g2, e2, shorts, _ := readAll(false, data, chunks, uint32(maxp), 2, bl)
+			g2, e2, shorts, _ := readAll(false, data, chunks, de, uint32(maxp), 2, bl)
 			c.Eval()
 			sdesc := map[string]any{"kind": "pktconn/short-buffer", "buflen": bl, "data": hx.Hex(data), "got": hexes(g2), "shorts": shorts, "end": e2}
 			for k := range order {
@@ -321,6 +429,53 @@ func c08(c *hx.Ctx) {
 				}
 			}
 		}
+	}
+}
+
+// liveCase: concurrent writers over a pipe that delivers each Write call
+// separately while the receiver runs; checks the one-Write-per-frame
+// atomicity assumption and that the receiver delivers the packets in the
+// order in which the stream saw the writes.
+func liveCase(c *hx.Ctx, name string, session bool, pkts [][]byte, writers int, maxp int) {
+	pipe, got, end, werrs := liveRun(session, pkts, writers, uint32(maxp))
+	desc := map[string]any{"kind": name + "/concurrent-writers", "max": maxp, "writers": writers, "packets": hexes(pkts), "write_sizes": pipe.sizes, "data": hx.Hex(pipe.all), "got": hexes(got), "end": end}
+	c.Case(hx.App("Pk", hx.Bool(session), hx.Z(int64(maxp)), natList(pipe.sizes), hx.Bytes(pipe.all), hx.BytesList(got), hx.Nat(end)), desc)
+	c.Class(name + "/concurrent-writers")
+	if len(got) > 0 {
+		c.Nontrivial(name + "live" + hx.Hex(pipe.all))
+	}
+	if len(werrs) > 0 {
+		c.Failf("write-error", desc, "writer returned %v", werrs[0])
+	}
+	expectWrites := 0
+	for _, p := range pkts {
+		if len(p) > 0 || session {
+			expectWrites++
+		}
+	}
+	if len(pipe.sizes) != expectWrites {
+		c.Failf("frame-split-across-writes", desc, "%d packets reached the stream in %d Write calls (one Write per frame is the atomicity assumption)", expectWrites, len(pipe.sizes))
+	}
+	// every Write call is one whole frame
+	var order [][]byte
+	off := 0
+	for _, sz := range pipe.sizes {
+		w := pipe.all[off : off+sz]
+		off += sz
+		if len(w) < 4 || !bytes.Equal(w[:4], u32le(uint32(len(w)-4))) {
+			c.Failf("frame-split-across-writes", desc, "Write call %x is not one whole frame (4-byte little-endian length followed by that many bytes)", w)
+			return
+		}
+		order = append(order, w[4:])
+	}
+	if !sameMultiset(order, pkts) || !perWriterOrder(order, pkts, writers) {
+		c.Failf("writes-not-the-packets", desc, "payloads on the stream %v are not the packets sent (per-writer order kept)", hexes(order))
+	}
+	if !eq2(got, order) {
+		c.Failf("packets-not-preserved/concurrent", desc, "receiver delivered %v, the stream carried %v", hexes(got), hexes(order))
+	}
+	if end != 1 {
+		c.Failf("clean-end-misreported", desc, "after the last packet the receiver reported class %d, expected io.EOF", end)
 	}
 }
 
